@@ -187,6 +187,8 @@ def stage_signals(report, tier, rng, dist):
             cfgs.append(dict(backend=backend, double=double, n=3, max_workers=2, wait_started=2, gap=0.3))
     # a terminal's Ctrl-C goes to the whole foreground process group: the workers receive it too
     cfgs.append(dict(backend='fork', double=False, n=3, max_workers=2, wait_started=2, group=True))
+    # tasks that honour SIGTERM only after 8 s: the second interrupt must not wait for them
+    cfgs.append(dict(backend='fork', double=True, n=3, max_workers=2, wait_started=2, gap=0.3, term_grace=8))
     if tier == 'thorough':
         cfgs.append(dict(backend='serial', double=False, n=2, max_workers=1, wait_started=1))
         cfgs.append(dict(backend='fork', double=False, n=3, max_workers=2, wait_started=2, no_progress=False, no_top=False))
